@@ -1,5 +1,6 @@
 import Driver.Common
 import OidcModel.Spec.C02
+import OidcModel.Spec.C02Config
 open Kv Drv
 
 namespace Drv.C02
@@ -40,11 +41,36 @@ def obsString (l : Line) : String :=
 def endpointObs (l : Line) (t : Token) : Option Claims :=
   if str l "obs" == "ok" then some { (t.middle.bind (·.claims)).getD {} with sub := str l "o.sub" } else none
 
+/-- part 7: the construction call of the provider as the line carries it (`cfg.n`, `cfg.<i>.opt`, the key set handed over
+    `cfg.<i>.ks.*`, the lists of a verifier option list `cfg.<i>.m`, `cfg.<i>.l<j>`) -/
+def parseCfg (l : Line) : List C02.CfgOpt :=
+  (List.range (nat l "cfg.n")).map fun i =>
+    let q := "cfg." ++ toString i ++ "."
+    let lists := (List.range (nat l (q ++ "m"))).map fun j => list l (q ++ "l" ++ toString j)
+    match str l (q ++ "opt") with
+    | "atks" => .atKeySet (parseKeySet l (q ++ "ks."))
+    | "hintks" => .hintKeySet (parseKeySet l (q ++ "ks."))
+    | "atalgs" => .atAlgs lists
+    | "hintalgs" => .hintAlgs lists
+    | _ => .other
+
+/-- allowed list and key set the statement speaks about at a token-consuming endpoint.  Part 7 (`cfg.n` on the line): what the
+    CONSTRUCTION CALL configured for the verifier of this endpoint (Spec/C02Config.lean; `ks.` = what the storage publishes, the
+    default).  Parts 5 / 6: the list the harness configured (`v.algs`) and the storage's keys / the named client's registry. -/
+def endpointConfig (l : Line) (t : Token) : List String × KeySet :=
+  if has l "cfg.n" then
+    let cfg := parseCfg l
+    let storage := parseKeySet l "ks."
+    if str l "verifier" == "hint" then (C02.cfgAlgsHint cfg, C02.cfgKeySetHint storage cfg)
+    else (C02.cfgAlgsAT cfg, C02.cfgKeySetAT storage cfg)
+  else (list l "v.algs", keySetFor l t)
+
 def monitorEndpoint (l : Line) : Option String :=
   let t := parseTokenX l
   -- the allow-list in force is the one the provider was CONFIGURED with (`v.algs`; empty: the library default)
   -- (an assertion: the library default list and the keys registered for the client the assertion names, `keySetFor`)
-  match C02.monitor (list l "v.algs") (keySetFor l t) t (endpointObs l t) with
+  let (algs, ks) := endpointConfig l t
+  match C02.monitor algs ks t (endpointObs l t) with
   | some c => some c
   | none =>
     if str l "obs" == "ok" && str l "t.jti" != "" && str l "o.jti" != str l "t.jti" then some "accepted:claims-changed" else none
